@@ -103,6 +103,7 @@ type fault struct {
 
 type crashJob struct {
 	snap, variant, src string
+	tmpName            string // the temporary path of the save, relative to the state directory ("" if none was seen)
 	f                  fault
 	oldHash, newHash   string
 	oldP, newP         Proj
@@ -115,6 +116,8 @@ type crashCtx struct {
 	mu      sync.Mutex
 	seq     int
 	timeout time.Duration
+	loNanos int64 // time spent in saves after an interrupted save (summed over the workers)
+	loRuns  int64
 }
 
 func (x *crashCtx) emit(m tr.M) {
@@ -326,6 +329,14 @@ func (x *crashCtx) runFault(j *crashJob) {
 			r["harness_error"] = "child: " + trunc(res.stdout+res.stderr, 300)
 		}
 		evaluate(dir, j, r)
+		if fired && matched && r["harness_error"] == nil && r["loaded"] == true && j.tmpName != "" && fileSize(filepath.Join(dir, j.tmpName)) >= 0 {
+			// the next generation: a restart and one more save over what this interrupted save left at the temporary path
+			what := f.Kind
+			if s, _ := r["sys"].(string); s != "" {
+				what += "@" + s
+			}
+			x.afterLeftoverBoth(dir, j.tmpName, r, what, f.ID, int64(f.ID)*31+int64(len(j.snap)))
+		}
 		os.RemoveAll(dir)
 		last = r
 		if fired && matched && r["harness_error"] == nil {
@@ -490,6 +501,7 @@ func CrashMain(args []string) error {
 	defer w.Close()
 	x := &crashCtx{self: *self, work: *work, w: w, timeout: 30 * time.Second}
 	jobs := []*crashJob{}
+	extra := []func(){}
 	for si, s := range list {
 		src := filepath.Join(s.Dir, "state")
 		rnd := rand.New(rand.NewSource(*seed*7919 + int64(si)))
@@ -552,35 +564,45 @@ func CrashMain(args []string) error {
 				sysk[f.Kind+":"+f.Sys]++
 			}
 		}
+		tmpName := tmpNameOf(res.calls)
 		b, e := window(res.calls)
 		wcalls := []string{}
 		for i := b + 1; i < e; i++ {
 			wcalls = append(wcalls, res.calls[i].Name+"("+trunc(res.calls[i].Args, 100)+") = "+res.calls[i].Ret)
 		}
-		x.emit(tr.M{"ev": "plan", "snap": s.Name, "variant": s.Variant, "points": ids, "kinds": kinds, "by_syscall": sysk, "new_bytes": newSize,
+		x.emit(tr.M{"ev": "plan", "snap": s.Name, "variant": s.Variant, "points": ids, "kinds": kinds, "by_syscall": sysk, "new_bytes": newSize, "tmp_name": tmpName,
 			"old_hash": oldP.Hash(), "new_hash": newP.Hash(), "old_ne_new": oldP.Hash() != newP.Hash(), "window_calls": wcalls,
 			"feat": oldP.Features()})
 		x.emit(touchRecord(s.Name, s.Variant, res.calls, ino0 != ino1))
+		if tmpName != "" {
+			si, name, variant := si, s.Name, s.Variant
+			extra = append(extra, func() { x.syntheticLeftovers(src, name, variant, tmpName, si, *seed*101+int64(si)) })
+		}
 		for _, f := range fs {
-			jobs = append(jobs, &crashJob{snap: s.Name, variant: s.Variant, src: src, f: f, oldHash: oldP.Hash(), newHash: newP.Hash(), oldP: oldP, newP: newP})
+			jobs = append(jobs, &crashJob{snap: s.Name, variant: s.Variant, src: src, tmpName: tmpName, f: f, oldHash: oldP.Hash(), newHash: newP.Hash(), oldP: oldP, newP: newP})
 		}
 	}
-	ch := make(chan *crashJob)
+	ch := make(chan func())
 	var wg sync.WaitGroup
 	for i := 0; i < *workers; i++ {
 		wg.Add(1)
 		go func() {
 			defer wg.Done()
-			for j := range ch {
-				x.runFault(j)
+			for f := range ch {
+				f()
 			}
 		}()
 	}
+	for _, f := range extra {
+		ch <- f
+	}
 	for _, j := range jobs {
-		ch <- j
+		j := j
+		ch <- func() { x.runFault(j) }
 	}
 	close(ch)
 	wg.Wait()
-	fmt.Printf("persistdrv crash: %d snapshots, %d fault runs\n", len(list), len(jobs))
+	fmt.Printf("persistdrv crash: %d snapshots, %d fault runs, %d saves after an interrupted save (%.1f s summed over %d workers)\n",
+		len(list), len(jobs), x.loRuns, float64(x.loNanos)/1e9, *workers)
 	return nil
 }
